@@ -58,12 +58,45 @@ def preAll (s : Seg) (l : List Viol) : List Viol := l.map (Viol.pre s)
 
 /-! ### numeric value of a constraint argument -/
 
+/-- `10^n` -/
+def pow10 : Nat → Int
+  | 0 => 1
+  | n + 1 => 10 * pow10 n
+
+/-- decimal text as printed by `strconv.FormatFloat(x, 'g', -1, 64)` (`-1.5`, `1e+06`,
+    `-9.99999916e+08`) → value × 4, when that is an integer -/
+def parseGFloat (s : String) : Option Int :=
+  let (neg, body) := if s.startsWith "-" then (true, (s.drop 1).toString) else (false, s)
+  let (mant, exp) : String × Option Int :=
+    match body.splitOn "e" with
+    | [m] => (m, some 0)
+    | [m, e] =>
+      (m, if e.startsWith "+" then ((e.drop 1).toString.toNat?).map Int.ofNat
+          else if e.startsWith "-" then ((e.drop 1).toString.toNat?).map fun n => -(Int.ofNat n)
+          else (e.toNat?).map Int.ofNat)
+    | _ => ("", none)
+  let digits : Option (Nat × Nat) :=      -- (all digits as a number, number of fraction digits)
+    match mant.splitOn "." with
+    | [w] => w.toNat?.map fun n => (n, 0)
+    | [w, f] => (w ++ f).toNat?.bind fun n => if w.isEmpty then none else some (n, f.length)
+    | _ => none
+  match digits, exp with
+  | some (n, fd), some e =>
+    let sh : Int := e - Int.ofNat fd
+    let q : Option Int :=
+      if sh ≥ 0 then some (Int.ofNat n * 4 * pow10 sh.toNat)
+      else
+        let d := pow10 (-sh).toNat
+        if (Int.ofNat n * 4) % d = 0 then some (Int.ofNat n * 4 / d) else none
+    q.map fun v => if neg then -v else v
+  | _, _ => none
+
 /-- bound × 4 of a constraint argument (Go dynamic type kept by VIR): integers of any width,
-    floats whose shortest decimal text is a multiple of 0.25 -/
+    floats / json.Numbers whose value is a multiple of 0.25 -/
 def valQuarters : Val → Option Int
   | .int _ n => some (n * 4)
-  | .float _ r => Json.parseNum r
-  | .jnum s => Json.parseNum s
+  | .float _ r => parseGFloat r
+  | .jnum s => parseGFloat s
   | _ => none
 
 /-- `left op right` on quarters -/
